@@ -11,9 +11,11 @@ package resourceexecutor
 //
 // The only stub is the kernel: an in-package wrapper around every ResourceUpdater (cgW) forwards
 // update()/MergeUpdate() to the real updater and then plays the cgroupfs side of the call: it detects the
-// (at most one) file write the call performed, re-formats the file the way the kernel would show it,
-// checks the parent/child rules, can make the write fail without a trace in the file, can crash the process
-// at that point, and keeps a write log plus one snapshot of the tree per write.
+// (at most one) file write the call performed (every file carries a sentinel mtime; in the uninterrupted
+// execution the whole tree is examined after every call, in restart executions the call's own file after every
+// call and the whole tree at the end), re-formats the file the way the kernel would show it, refuses text the
+// kernel cannot parse, checks the parent/child rules, can make the write fail without a trace in the file, can
+// crash the agent at that point, and keeps a write log plus one snapshot of the whole tree per write.
 //
 // Crash axis = enumeration: for every rewrite the uninterrupted run yields a write sequence of length L; for
 // EVERY k in 0..L the tree as it was after the k-th write is put back on disk and a fresh executor (empty
